@@ -48,6 +48,7 @@ DepthOf(sc, s)  == Len(GPathOf(sc, s)) + 1
 TypeOf(sc, s)   == SimRec(sc, s).type
 CIdx(sc)        == 1..Len(sc.conns)
 Flat(sc, s, t)  == FlatT(DepthOf(sc, s), t)
+InitEvs(sc, s)  == IF "initevs" \in DOMAIN SimRec(sc, s) THEN {SimRec(sc, s).initevs[i] : i \in 1..Len(SimRec(sc, s).initevs)} ELSE {}
 
 \* depth (1 = root group) of the deepest group containing both simulators;
 \* sibling groups have different ids, so they share only their ancestors
@@ -85,8 +86,10 @@ DebugOn(sc) == IF "debug" \in DOMAIN sc THEN sc.debug ELSE FALSE
 (* History.                                                                *)
 
 InitH(sc) ==
-  [dem   |-> [s \in Sids(sc) |-> IF TypeOf(sc, s) # "event-based" \/ SimRec(sc, s).initev
-                                  THEN {Flat(sc, s, 0)} ELSE {}],   \* outstanding demands
+  [dem   |-> [s \in Sids(sc) |-> (IF TypeOf(sc, s) # "event-based" \/ SimRec(sc, s).initev
+                                  THEN {Flat(sc, s, 0)} ELSE {})
+                                 \* every initial event (set_initial_event(sid, t), any number of them) demands a step of its own
+                                 \cup {Flat(sc, s, t) : t \in {u \in InitEvs(sc, s) : u >= 0 /\ u < sc.until}}],   \* outstanding demands
    nd    |-> [s \in Sids(sc) |-> 0],        \* number of steps begun
    lastd |-> [s \in Sids(sc) |-> None],     \* tiered time of the last step begun
    infl  |-> [s \in Sids(sc) |-> None],     \* step in flight (until its outputs are retrieved)
@@ -223,7 +226,12 @@ HasTrigIn(sc, s) == \E i \in CIdx(sc) : Conn(sc, i).dst = s /\ Conn(sc, i).data 
 \* earlier promise window (t_j, m_j] is caused by s itself at or after step j
 C07ok(sc, h, s, t, m, cs) ==
   /\ m <= sc.until
-  /\ (~HasTrigIn(sc, s)) => m = sc.until
+  \* (an initial event that the scenario script set for a LATER time is a step for a reason outside the simulator's control as
+  \*  well: the promise of a simulator without trigger inputs then ends just before the earliest one still to come)
+  \*  (one at or after `until` is never performed, but mosaik keeps it pending: the promise may end at until - 1 then - weaker, still sound)
+  \*  (the same for a step the simulator scheduled for itself BEFORE an initial event that it is performing now)
+  /\ (~HasTrigIn(sc, s)) => LET later == {u \in InitEvs(sc, s) : u > t} \cup {d[1] : d \in {e \in h.dem[s] : e[1] > t}}
+                            IN m = IF later = {} \/ IMin(later) - 1 > sc.until THEN sc.until ELSE IMin(later) - 1
   /\ \A j \in 1..Len(h.prom[s]) : (h.prom[s][j].t < t /\ t <= h.prom[s][j].m) =>
         \E c \in cs : c[1] = s /\ c[2] >= j
 
@@ -499,10 +507,9 @@ TrigPre(sc, s) == {Conn(sc, i).src : i \in {j \in CIdx(sc) : Conn(sc, j).dst = s
 RECURSIVE AncClose(_, _, _)
 AncClose(sc, S, k) == IF k = 0 THEN S ELSE AncClose(sc, S \cup UNION {TrigPre(sc, x) : x \in S}, k - 1)
 AncTrig(sc, s) == AncClose(sc, {s}, Len(sc.sims))
-IMinS(S) == CHOOSE x \in S : \A y \in S : x <= y
-PgHi(sc, h, x) == IMinS({sc.until} \cup {d[1] : d \in h.dem[x]} \cup (IF h.infl[x] = None THEN {} ELSE {h.infl[x][1]}))
+PgHi(sc, h, x) == IMin({sc.until} \cup {d[1] : d \in h.dem[x]} \cup (IF h.infl[x] = None THEN {} ELSE {h.infl[x][1]}))
 PgLo(sc, h, x) == LET began == IF h.lastd[x] = None THEN 0 ELSE h.lastd[x][1]
-                      free  == IMinS({PgHi(sc, h, a) : a \in AncTrig(sc, x)})
+                      free  == IMin({PgHi(sc, h, a) : a \in AncTrig(sc, x)})
                   IN IF RT(sc).on THEN began ELSE IF began > free THEN began ELSE free
 RECURSIVE PgSum(_, _, _, _)
 PgSum(sc, h, Op(_, _, _), n) == IF n = 0 THEN 0 ELSE Op(sc, h, sc.sims[n].sid) + PgSum(sc, h, Op, n - 1)
